@@ -197,7 +197,11 @@ type scriptConn struct {
 func (c *scriptConn) Read(p []byte) (int, error) {
 	c.reads++
 	if c.reads > 300000 {
-		panic("harness: more than 300000 reads in one session")
+		panic("harness: more than 300000 reads in one session (the call does not return)")
+	}
+	if len(p) == 0 { // like a TCP connection: an empty buffer reads nothing, at once, whatever the deadline
+		c.t.add(fmt.Sprintf("READ %d 0", c.j))
+		return 0, nil
 	}
 	if len(c.inflight) == 0 {
 		c.t.add(fmt.Sprintf("READ %d TIMEOUT", c.j))
